@@ -3,6 +3,7 @@
 //! log (begin is flushed before walrus is invoked, so a crash is attributable).
 
 mod probe;
+mod scen_gate;
 mod scen_rt;
 mod util;
 
@@ -14,11 +15,14 @@ fn arg(args: &[String], name: &str) -> Option<String> {
 }
 
 fn run_case(idx: u64, c: &CaseDesc, w: &mut Writer) {
-    let input = workload::materialize(&c.spec);
+    let (input, mat_panic) = match util::guarded(|| workload::materialize(&c.spec)) {
+        Ok(i) => (i, None),
+        Err(p) => (None, Some(p)),
+    };
     let mut begin = Rec::new("begin").n("idx", idx).s("spec", &c.spec).s("scenario", &c.scenario);
     match &input {
         Some(b) => begin.push_b("input", b),
-        None => begin.push_s("noinput", "1"),
+        None => begin.push_s("noinput", mat_panic.as_deref().unwrap_or("1")),
     }
     w.write(&begin);
     let mut end = Rec::new("end").n("idx", idx);
@@ -27,6 +31,7 @@ fn run_case(idx: u64, c: &CaseDesc, w: &mut Writer) {
         let kind = c.scenario.split(':').next().unwrap_or("");
         match kind {
             "rt" => scen_rt::run(input, &c.scenario, &mut end),
+            "gate" => scen_gate::run(input, &mut end),
             other => end.push_s("harness_error", &format!("unknown scenario {}", other)),
         }
     } else {
